@@ -33,7 +33,7 @@ ASSUMPTIONS = [
     "'returns a bool' is demanded, not a particular verdict: the property does not say whether lenient base64 is acceptable",
 ]
 CONFIGURATIONS = ["%d networks (every registered one except Groestlcoin): %s" % (len(NETCODES), " ".join(NETCODES)),
-                  "secp256k1 via the OpenSSL-accelerated generator", "compressed and uncompressed keys"]
+                  "secp256k1 via the OpenSSL-accelerated generator", "secp256k1 via the pure-Python generator (child interpreter, PYCOIN_NATIVE=none)", "compressed and uncompressed keys"]
 UNEXPLORED = ["Groestlcoin networks GRS, TGRS, GRSRT (addresses need the groestlcoin_hash C module, not installed)",
               "signing with recid >= 2 (nonce abscissa >= n, probability ~2^-128) and the r == 0 / s == 0 retry loop",
               "message hash == 0 or >= n (probability ~2^-128)", "libsecp256k1 backend"]
@@ -503,6 +503,40 @@ def nt_totality(case, labels):
     return True
 
 
+# ------------------------------------------------------------------ the same oracles on the pure-Python arithmetic backend
+
+NATIVE_NONE = {"PYCOIN_NATIVE": "none"}
+THIS = "checks.c17_msgsign"
+
+
+def _child_backend():
+    from gen import ecgen
+    from pycoin.ecdsa.secp256k1 import secp256k1_generator as g
+    name = ecgen.backend_of(g)
+    if name != "pure":
+        from vlib.core import HarnessError
+        raise HarnessError("child started with PYCOIN_NATIVE=none does not use the pure-Python generator: %s" % name)
+    return "child-backend=" + name
+
+
+def o_sign_verify_worker(case):       # runs inside the PYCOIN_NATIVE=none child
+    return o_sign_verify(case) + [_child_backend()]
+
+
+def o_totality_worker(case):
+    return o_totality(case) + [_child_backend()]
+
+
+def o_sign_verify_pure(case):
+    from gen import subproc
+    return subproc.call(THIS, "o_sign_verify_worker", case, NATIVE_NONE)
+
+
+def o_totality_pure(case):
+    from gen import subproc
+    return subproc.call(THIS, "o_totality_worker", case, NATIVE_NONE)
+
+
 SUBCHECKS = [
     SubCheck("sign_verify", o_sign_verify, strategy=s_sign_verify, budget=(1500, 60000),
              nontrivial=lambda c, l: "msg-bytes=0" not in l,
@@ -526,4 +560,10 @@ SUBCHECKS = [
                   "truncated / extended payloads; base64 of arbitrary bytes; mangled base64 (whitespace, lost padding, foreign or "
                   "non-ASCII characters, truncation); arbitrary unicode / base64-alphabet text. Must return a bool; for canonical "
                   "base64 payloads the bool must equal the reference verdict (recover and compare)"),
+    SubCheck("sign_verify_pure_python", o_sign_verify_pure, strategy=s_sign_verify, budget=(48, 3000),
+             nontrivial=lambda c, l: "msg-bytes=0" not in l,
+             rule="the sign_verify cases evaluated in a child interpreter started with PYCOIN_NATIVE=none (pure-Python point "
+                  "arithmetic; the child asserts that no native generator is in use)"),
+    SubCheck("verifier_totality_pure_python", o_totality_pure, strategy=s_totality, budget=(240, 8000), nontrivial=nt_totality,
+             rule="the verifier_totality cases in the same PYCOIN_NATIVE=none child"),
 ]
